@@ -833,10 +833,12 @@ mod tests {
 }
 
 /// Rows relaxed by a margin; a system that is still infeasible after this relaxation is "infeasible by
-/// a margin".  Row i is relaxed by `delta * (1 + |b_i| + |a_i|_1)` plus `delta * |a_i|_inf * M` where
-/// `M = max_k |b_k| / |a_k|_inf` is the largest bias of the row-equilibrated system: a floating-point
-/// LP works on all rows at once, so one row with bias 1e16 (a point set that lives at astronomically
-/// large coordinates) limits the absolute accuracy of every other row of that system.
+/// a margin".  Row i is relaxed by a geometric part `delta * (1 + |a_i|_1)` (delta = 1e-6: two orders above the
+/// solver's 1e-8) plus a magnitude part `delta/1000 * (|b_i| + |a_i|_inf * M)`, where `M = max_k |b_k| / |a_k|_inf`
+/// is the largest bias of the row-equilibrated system: a floating-point LP works on all rows at once, so its
+/// absolute accuracy is limited by the largest numbers it holds (1e-9 relative is seven orders above the unit
+/// roundoff).  A gap of 10 between `t <= 1.6e9` and `t >= 1.6e9 + 10` is therefore "by a margin" (relaxation 3.2),
+/// a gap of 1/56 next to a row with bias 1e16 is not.
 pub fn relaxed(rows: &[Row], delta: &Q) -> Vec<Row> {
     let inf = |r: &Row| r.a.iter().map(|v| v.abs()).max().unwrap_or(Q::zero());
     let mut big = Q::zero();
@@ -851,9 +853,10 @@ pub fn relaxed(rows: &[Row], delta: &Q) -> Vec<Row> {
     }
     rows.iter()
         .map(|r| {
-            let own = &(&Q::one() + &r.b.abs()) + &norm1(&r.a);
-            let glob = &inf(r) * &big;
-            Row::le(r.a.clone(), &r.b + &(delta * &(&own + &glob)))
+            let geometric = &Q::one() + &norm1(&r.a);
+            let magnitude = &r.b.abs() + &(&inf(r) * &big);
+            let rho = delta * &Q::frac(1, 1000);
+            Row::le(r.a.clone(), &(&r.b + &(delta * &geometric)) + &(&rho * &magnitude))
         })
         .collect()
 }
